@@ -268,7 +268,7 @@ RECIPES = {
         level="model_checking",
         monitors={"C18"},
         mc=[MC_QM, MC_CLEAN],
-        runs=[dict(cmd="pair", gen="gc-heavy:16,many-queues:6,small:20,idle:10,aim-gc:30,aim-roll:10,recreate:10,aim-pin:10", policy="always_flush",
+        runs=[dict(cmd="pair", gen="gc-heavy:16,many-queues:6,small:20,idle:10,aim-gc:30,aim-roll:10,recreate:10,aim-pin:10,aim-block:16,aim-batch:6,aim-span:4", policy="always_flush",
                    opts={"crash": True, "max-points": "40"}, opts_thorough={"crash": True, "max-points": "400"}, thorough_factor=10)],
         rule="for every script and every queue q: the full run and its projection onto q (restarts kept) agree on every "
              "result of a call addressed to q and on q's content after each such call and each restart; crash variant: "
